@@ -384,7 +384,7 @@ func (w *World) Send(c int, p packet.Generic) {
 	dead := fc.closed || fc.peerGone
 	fc.mu.Unlock()
 	if !dead {
-		fc.in <- p
+		fc.in <- clonePacket(p) // what the broker gets is decoded from the wire: its own objects
 	}
 	w.settle()
 }
@@ -402,7 +402,7 @@ func (w *World) SendBatch(c int, ps []packet.Generic) {
 		dead := fc.closed || fc.peerGone
 		fc.mu.Unlock()
 		if !dead {
-			fc.in <- p
+			fc.in <- clonePacket(p)
 		}
 	}
 	w.settle()
@@ -428,6 +428,7 @@ func (w *World) AckMode(m string) {
 	w.wb.mu.Lock()
 	w.wb.mode = m
 	w.wb.mu.Unlock()
+	w.record(ev{kind: "ackmode", txt: m})
 	w.op("br ackmode " + m)
 }
 
